@@ -60,7 +60,7 @@ type crashWorld struct {
 	env    *Env
 	bucket string
 	key    string
-	uid    string // multipart upload id when one is open
+	uid    string   // multipart upload id when one is open
 	vids   []string // version ids created during setup, oldest first
 	etagOf map[string]string
 	sizeOf map[int]string
